@@ -109,6 +109,7 @@ def main():
             cls = rd.InventoryHP if s["cls"] == "InventoryHP" else rd.Inventory
             objs.append(cls({k: float.fromhex(v) for k, v in s["contents"].items()}, s["units"]))
         extra = []     # results kept alive (new inventories from decay / operators)
+        kept = []      # (step, method, the object a read-out RETURNED, a copy of its items): a result must not change afterwards
         fresh0 = fp_dataset(D)
         nsteps = 0
         results = []
@@ -127,9 +128,11 @@ def main():
                 elif meth == "cumulative_decays":
                     res = {k: float(v).hex() for k, v in inv.cumulative_decays(float.fromhex(args[0]), args[1]).items()}
                 elif meth == "numbers":
-                    res = {k: float(v).hex() for k, v in inv.numbers().items()}
+                    raw = inv.numbers(); kept.append((nsteps + 1, meth, raw, list(raw.items()))); kept[:] = kept[-8:]
+                    res = {k: float(v).hex() for k, v in raw.items()}
                 elif meth in ("activities", "masses", "moles"):
-                    res = {k: float(v).hex() for k, v in getattr(inv, meth)(args[0]).items()}
+                    raw = getattr(inv, meth)(args[0]); kept.append((nsteps + 1, meth, raw, list(raw.items()))); kept[:] = kept[-8:]
+                    res = {k: float(v).hex() for k, v in raw.items()}
                 elif meth == "fractions":
                     res = [{k: float(v).hex() for k, v in f().items()} for f in (inv.activity_fractions, inv.mass_fractions, inv.mole_fractions)]
                 elif meth in ("half_lives",):
@@ -207,6 +210,11 @@ def main():
                             else ("a non-mutating call changed its receiver" if o is inv else "a call changed an unrelated inventory"))
                     viol.append({"step": nsteps, "method": meth, "what": what, "exc": exc, "object": idx,
                                  "before": b["contents"][:3], "after": a["contents"][:3], "attrs": [b["attrs"], a["attrs"]]})
+            for kp in list(kept):
+                if list(kp[2].items()) != kp[3]:
+                    viol.append({"step": nsteps, "method": meth, "what": f"the result that {kp[1]}() returned at step {kp[0]} changed retroactively after this call",
+                                 "was": [[k, float(v).hex()] for k, v in kp[3]][:3], "now": [[k, float(v).hex()] for k, v in kp[2].items()][:3]})
+                    kept.remove(kp)
             if exc in ("KeyError", "IndexError", "AttributeError", "RuntimeError"):
                 viol.append({"step": nsteps, "method": meth, "what": f"escaped with {exc}"})
             results.append([meth, exc])
